@@ -159,6 +159,28 @@ fn check_config<T: DiffableStr + ?Sized>(
             ));
         }
     }
+    // the constructor shortcuts are the default configuration (Myers, no override)
+    if alg == Algorithm::Myers && nl.is_none() {
+        let short = match t {
+            0 => TextDiff::from_lines(old, new),
+            1 => TextDiff::from_words(old, new),
+            2 => TextDiff::from_chars(old, new),
+            #[cfg(feature = "unicode")]
+            3 => TextDiff::from_unicode_words(old, new),
+            #[cfg(feature = "unicode")]
+            4 => TextDiff::from_graphemes(old, new),
+            _ => TextDiff::from_slices(&slices_o, &slices_n),
+        };
+        if short.ops() != diff.ops() || short.algorithm() != alg || short.newline_terminated() != want_nl {
+            return Err(format!(
+                "TextDiff::from_* gives ops {:?} (algorithm {:?}, newline_terminated {}), the default configuration {:?}",
+                short.ops(),
+                short.algorithm(),
+                short.newline_terminated(),
+                diff.ops()
+            ));
+        }
+    }
     let direct = similar::capture_diff_slices(alg, diff.old_slices(), diff.new_slices());
     if diff.ops() != &direct[..] {
         return Err(format!(
